@@ -27,7 +27,8 @@ ASSUMPTIONS = ['object.__setattr__ bypasses the overridden __setattr__']
 
 class _D(Domain):
     def resolve_call(self, st, call, walker):
-        return None
+        # private helpers extracted from the analysed code are followed
+        return walker.resolve_helper(st, call)
 
 
 def run(program, rep, tier):
